@@ -263,6 +263,8 @@ func populate(path string, readable bool, ents []string) (cleanup func()) {
 			os.Symlink(tfile, filepath.Join(abs, e[3:]))
 		case strings.HasPrefix(e, "LD:"):
 			os.Symlink(tdir, filepath.Join(abs, e[3:]))
+		case strings.HasPrefix(e, "LS:"):
+			os.Symlink("/dev/null", filepath.Join(abs, e[3:])) // a link to something that is neither a regular file nor a directory
 		case strings.HasPrefix(e, "LX:"):
 			os.Symlink(filepath.Join(root, "targets", "missing"), filepath.Join(abs, e[3:]))
 		}
